@@ -38,7 +38,8 @@ class Rule:
     def from_spec(cls, spec):
         path = DataPath.from_part_specs(*spec["path"])
         cond = ConditionLike.from_spec(spec["condition"])
-        doc = spec.get("doc")
+        # normalised below, in a copy (the caller's spec is left unchanged):
+        doc = copy.deepcopy(spec.get("doc"))
 
         if doc:
             if not isinstance(doc, dict):
@@ -63,7 +64,7 @@ class Rule:
             for idx, ex_i in enumerate(doc["examples"]):
                 doc["examples"][idx] = ex_i.strip()
 
-        cast = spec.get("cast")
+        cast = copy.deepcopy(spec.get("cast"))
         for cast_from in list((cast or {}).keys()):
             cast_to = cast.pop(cast_from)
             try:
